@@ -460,6 +460,117 @@ func defaultSets(c *core.Ctx, r *core.Rand, i int) {
 	c.Distinct(core.Hash64("default-sets", hist))
 }
 
+// reusedOptions: an application keeps Option values (a base set of versions, an extra one) and uses them for several
+// connections, in different combinations. Each client negotiates with the set ITS options describe.
+func reusedOptions(c *core.Ctx, r *core.Rand, i int) {
+	nOpts := 2 + r.Intn(3)
+	var sets [][]kmip.ProtocolVersion
+	var options []kmipclient.Option
+	for k := 0; k < nOpts; k++ {
+		S := subset(1 + r.Intn(31))
+		if r.P(1, 2) {
+			S = S[:1]
+		}
+		sets = append(sets, S)
+		options = append(options, kmipclient.WithKmipVersions(S...))
+	}
+	K := 3 + r.Intn(4)
+	hist := ""
+	for k := 0; k < K; k++ {
+		var use []int
+		for o := 0; o < nOpts; o++ {
+			if r.P(1, 2) {
+				use = append(use, o)
+			}
+		}
+		if len(use) == 0 {
+			use = []int{r.Intn(nOpts)}
+		}
+		if r.Bool() {
+			for a := len(use) - 1; a > 0; a-- {
+				b := r.Intn(a + 1)
+				use[a], use[b] = use[b], use[a]
+			}
+		}
+		var cfg []kmip.ProtocolVersion
+		var opts []kmipclient.Option
+		for _, o := range use {
+			opts = append(opts, options[o])
+			for _, v := range sets[o] {
+				if !has(cfg, v) {
+					cfg = append(cfg, v)
+				}
+			}
+		}
+		S := subset(1 + r.Intn(31)) // the server: conformant, answers the intersection with what the client lists
+		srv := script.NewServer(func(rx script.Received, conn *memnet.Conn) *kmip.ResponseMessage {
+			if rx.Msg.BatchItem[0].Operation != kmip.OperationDiscoverVersions {
+				return script.OK(rx.Msg, func(int, *kmip.RequestBatchItem) kmip.OperationPayload {
+					return &payloads.ActivateResponsePayload{UniqueIdentifier: "x"}
+				})
+			}
+			var offered []kmip.ProtocolVersion
+			if pl, ok := rx.Msg.BatchItem[0].RequestPayload.(*payloads.DiscoverVersionsRequestPayload); ok {
+				offered = pl.ProtocolVersion
+			}
+			var common []kmip.ProtocolVersion
+			for _, v := range desc(S) {
+				if len(offered) == 0 || has(offered, v) {
+					common = append(common, v)
+				}
+			}
+			return script.OK(rx.Msg, func(int, *kmip.RequestBatchItem) kmip.OperationPayload {
+				return &payloads.DiscoverVersionsResponsePayload{ProtocolVersion: common}
+			})
+		})
+		hist += fmt.Sprint(use) + fmtSet(S)
+		label := fmt.Sprintf("connection %d of %d made from %d kept option values %v (this one uses options %v = %s), server %s", k+1, K, nOpts, sets, use, fmtSet(cfg), fmtSet(S))
+		o, ok := dialAndUse(c, func(context.Context) (net.Conn, error) { return srv.L.Dial() }, opts, label, r.P(1, 4))
+		var headers []kmip.ProtocolVersion
+		var offeredSeen [][]kmip.ProtocolVersion
+		for _, rx := range srv.Received() {
+			if rx.Msg.BatchItem[0].Operation != kmip.OperationDiscoverVersions {
+				headers = append(headers, rx.Msg.Header.ProtocolVersion)
+			} else if pl, ok := rx.Msg.BatchItem[0].RequestPayload.(*payloads.DiscoverVersionsRequestPayload); ok {
+				offeredSeen = append(offeredSeen, pl.ProtocolVersion)
+			}
+		}
+		srv.Close()
+		if !ok {
+			return
+		}
+		c.Count("dials", 1)
+		c.Count("dials.reused-options", 1)
+		for _, off := range offeredSeen {
+			for _, v := range off {
+				if !has(cfg, v) {
+					c.Violation("C13:offers-unconfigured-version:reused-options", fmt.Sprintf("the client offers %v, which its options do not contain (%s)", v, label), nil)
+					return
+				}
+			}
+		}
+		want, common := highestCommon(cfg, S)
+		switch {
+		case !common && o.dialErr == nil:
+			c.Violation("C13:connects-without-common-version:reused-options", fmt.Sprintf("Dial succeeds with %v although nothing is common (%s)", o.adopted, label), nil)
+			return
+		case common && o.dialErr != nil:
+			c.Violation("C13:dial-fails:reused-options", fmt.Sprintf("Dial fails (%v) although %v is common (%s)", o.dialErr, want, label), nil)
+			return
+		case common && o.adopted != want:
+			c.Violation("C13:wrong-version:reused-options", fmt.Sprintf("adopted %v, the highest common version is %v (%s)", o.adopted, want, label), nil)
+			return
+		}
+		for _, h := range headers {
+			if h != o.adopted {
+				c.Violation("C13:request-carries-other-version:reused-options", fmt.Sprintf("a request carries %v, adopted %v (%s)", h, o.adopted, label), nil)
+				return
+			}
+		}
+	}
+	c.Distinct(core.Hash64("reused-options", hist))
+}
+
 func Spec() *core.Spec {
 	slog.SetDefault(slog.New(slog.NewTextHandler(io.Discard, nil)))
 	return &core.Spec{
@@ -467,10 +578,16 @@ func Spec() *core.Spec {
 		Level: "exploration",
 		Rule: "exhaustive: 31 non-empty client subsets x 32 server subsets of {1.0..1.4} x server behaviour {conformant, discovery unsupported (failed item; failed item without operation echo), lists versions not offered, unordered list, empty list} x {enforced, not enforced} against a scripted server that records every request header " +
 			"(two requests and one cloned client after each Dial; client options given in seeded order with duplicates), plus 31 x 31 against the library's own executor restricted with SetSupportedProtocolVersions; compared with a 10-line reference function. every scripted case through Dial and through DialCluster; sequences of 2-6 default-set clients against servers with different subsets in one process; seeded arbitrary server lists (duplicates, versions unknown to the library, any order/length) and discovery failing with other reasons; distinct = distinct configurations",
-		Required: []string{"dials.conformant", "dials.discovery-unsupported", "dials.lists-not-offered", "dials.unordered", "dials.empty-list", "dials.discovery-unsupported-no-operation-echo", "dials.default-set", "dials.library-server", "dials.cluster", "dials.arbitrary-lists", "arbitrary.discovery-failed", "expected_failures", "followup_headers"},
+		Required: []string{"dials.conformant", "dials.reused-options", "dials.discovery-unsupported", "dials.lists-not-offered", "dials.unordered", "dials.empty-list", "dials.discovery-unsupported-no-operation-echo", "dials.default-set", "dials.library-server", "dials.cluster", "dials.arbitrary-lists", "arbitrary.discovery-failed", "expected_failures", "followup_headers"},
 		Families: []core.Family{
 			{Name: "scripted", Exhaustive: true, N: func(string) int { return 31 * 32 * 6 * 2 * 2 }, Run: scripted},
 			{Name: "library-server", Exhaustive: true, N: func(string) int { return 31 * 31 }, Run: libraryServer},
+			{Name: "reused-options", N: func(tier string) int {
+				if tier == core.Thorough {
+					return 40000
+				}
+				return 600
+			}, Run: reusedOptions},
 			{Name: "default-sets", N: func(tier string) int {
 				if tier == core.Thorough {
 					return 40000
